@@ -82,10 +82,10 @@ theorem PoolUpd.trans {a b c : World} {pl : Nat} {v1 v2 : PView} (h1 : PoolUpd a
 theorem PoolUpd.of_fp {m : Mask} {w w' : World} (h : Fp m w w') (hp : m.pools = false) (hh : m.held = false)
     {pl : Nat} {v : PView} (hv : poolView w pl = some v) :
     PoolUpd w w' pl v ∧ ∀ q, (w'.proc q).held = (w.proc q).held := by
-  refine ⟨⟨h.2.2.2.2.2.2.2.1, ?_, ?_, ?_⟩, fun q => h.2.2.2.2.2.2.2.2 hh q⟩
+  refine ⟨⟨h.2.2.2.2.2.2.2.1, ?_, ?_, ?_⟩, fun q => h.2.2.2.2.2.2.2.2.1 hh q⟩
   · unfold poolView; rw [h.2.1 hp]; exact hv
   · intro pl' _; unfold poolView; rw [h.2.1 hp]
-  · intro q pl' _; rw [h.2.2.2.2.2.2.2.2 hh q]
+  · intro q pl' _; rw [h.2.2.2.2.2.2.2.2.1 hh q]
 
 theorem poolView_of_fp {m : Mask} {w w' : World} (h : Fp m w w') (hp : m.pools = false) (pl : Nat) :
     poolView w' pl = poolView w pl := by
@@ -113,7 +113,7 @@ theorem PoolInv.of_fp {m : Mask} {w w' : World} (h : Fp m w w') (hp : m.pools = 
   rw [poolView_of_fp h hp] at hpv
   obtain ⟨ok, lk⟩ := hi.2 pl v hpv
   rw [h.2.2.2.2.2.2.2.1]
-  exact ⟨ok, fun q => by rw [h.2.2.2.2.2.2.2.2 hh q]; exact lk q⟩
+  exact ⟨ok, fun q => by rw [h.2.2.2.2.2.2.2.2.1 hh q]; exact lk q⟩
 
 /-! ### counting: a holder list has at most as many entries as there are processes -/
 
